@@ -7,6 +7,7 @@ package clone
 // verif:bound C10 enzymes BsaI, BbsI, BtgZI and a custom non-palindromic 3-letter site (GAC, skip 1, overhang 2); 0..2 (quick) / 0..3 (thorough) recognition sites in either orientation; gaps between consecutive cuts from {minimum allowed, minimum+1 / +3}; linear parts with 0..(skip+overhang+2) bases before the first / after the last site; circular parts at EVERY rotation offset of the stored sequence
 // verif:bound C10 filler bases symbolic over {A,T,a,t} (no accidental site can arise; site letters upper or lower case): one path decides a layout for every filler
 // verif:assume C10 precondition (the property's restriction made precise): recognition-site occurrences and overhang windows are pairwise disjoint and consecutive cuts are at least two overhang lengths apart (cyclically for circular parts)
+// verif:bound C10 two-digest clause: two parts (linear or circular; the first with 2 sites, the second with 0..1 (quick) / 0..2 (thorough) sites, orientations symbolic choices, fixed gaps, symbolic filler) digested one after the other with the same enzyme: each answer follows its own part's geometry
 // verif:bound C10 outside the claim: more than 3 sites, sequences longer than ~80 bases, filler containing G/C (accidental sites), non-directional digestion
 
 import "regexp"
@@ -97,6 +98,33 @@ func c10Layout(e c10Enz, circular bool) (seq string, sites []c10Site) {
 		seq += s
 		if i < n-1 {
 			seq += vBytes(minGap+[]int{0, 1, 3}[vChoice(vTier(2, 3))], "ATat")
+		}
+	}
+	seq += vBytes(trail, "ATat")
+	return
+}
+
+// c10FixedLayout: n sites in symbolic orientation, fixed gaps (the reduced layout of the two-digest clause).
+func c10FixedLayout(e c10Enz, circular bool, n int) (seq string, sites []c10Site) {
+	minGap := 2*e.skip + 2*e.oh
+	lead, trail := e.skip+e.oh, e.skip+e.oh
+	if circular {
+		lead, trail = 1, minGap
+		if n == 0 {
+			trail = 6
+		}
+	}
+	seq = vBytes(lead, "ATat")
+	for i := 0; i < n; i++ {
+		fwd := vChoice(2) == 1
+		s := e.site
+		if !fwd {
+			s = c10RCsite(e.site)
+		}
+		sites = append(sites, c10Site{len(seq), fwd})
+		seq += s
+		if i < n-1 {
+			seq += vBytes(minGap, "ATat")
 		}
 	}
 	seq += vBytes(trail, "ATat")
@@ -242,6 +270,26 @@ func Harness_C10_Circular() {
 	vAssert(len(got) == len(want), "circular-fragment-count-independent-of-origin")
 	vAssert(c10MultisetEq(want, got), "circular-fragments-independent-of-origin")
 	vCover("C10 a rotated plasmid with a fragment", k > 0 && len(want) == 1)
+}
+
+// two digests in one process: the second answer depends on the second part only
+func Harness_C10_TwoDigests() {
+	e := c10Enzymes[vChoice(vTier(2, 4))]
+	circ1, circ2 := vChoice(2) == 1, vChoice(2) == 1
+	seq1, sites1 := c10FixedLayout(e, circ1, 2)
+	seq2, sites2 := c10FixedLayout(e, circ2, vChoice(vTier(2, 3)))
+	got1, p1 := c10Cut(Part{seq1, circ1}, e)
+	got2, p2 := c10Cut(Part{seq2, circ2}, e)
+	vAssert(!p1 && !p2, "digestion-does-not-panic")
+	if p1 || p2 {
+		return
+	}
+	want1 := c10Oracle(c10Upper(seq1), sites1, e, circ1)
+	want2 := c10Oracle(c10Upper(seq2), sites2, e, circ2)
+	vAssert(len(got1) == len(want1) && c10MultisetEq(want1, got1), "first-digest-follows-enzyme-geometry")
+	vAssert(len(got2) == len(want2), "second-digest-fragment-count")
+	vAssert(c10MultisetEq(want2, got2), "second-digest-follows-enzyme-geometry")
+	vCover("C10 a productive digest followed by an empty one", len(want1) > 0 && len(want2) == 0)
 }
 
 func Selftest_C10_Vectors() {
